@@ -4,6 +4,7 @@ package main
 
 import (
 	"fmt"
+	"os"
 	"go/types"
 	"sort"
 	"strings"
@@ -60,8 +61,21 @@ type fnResult struct {
 }
 
 func (e *Engine) findFunction(name string) *ssa.Function {
+	if e.fnCache == nil {
+		e.fnCache = map[string]*ssa.Function{}
+		e.allFns = ssautilAll(e.prog)
+	}
+	if fn, ok := e.fnCache[name]; ok {
+		return fn
+	}
+	fn := e.findFunctionSlow(name)
+	e.fnCache[name] = fn
+	return fn
+}
+
+func (e *Engine) findFunctionSlow(name string) *ssa.Function {
 	var best *ssa.Function
-	for fn := range ssautilAll(e.prog) {
+	for fn := range e.allFns {
 		if rootPkg(fn) != e.pkg {
 			continue
 		}
@@ -168,6 +182,39 @@ func (e *Engine) shapedParam(st *State, p *ssa.Parameter, shape string) Value {
 			return VIface{Typ: tn.Type(), V: VStruct{}}
 		}
 	}
+	if strings.HasPrefix(shape, "&{") && strings.HasSuffix(shape, "}") {
+		// pointer to a struct with some fields fixed: &{raw:nil,marshaled:sym,parsed:nil}
+		v := e.symbolicOf(st, t, name, 0)
+		pv, ok := v.(VPtr)
+		pt, ok2 := t.Underlying().(*types.Pointer)
+		if ok && ok2 {
+			sv, _ := e.load(st, pv).(VStruct)
+			stt, _ := pt.Elem().Underlying().(*types.Struct)
+			if stt != nil {
+				fs := append([]Value{}, sv.F...)
+				for _, kv := range strings.Split(shape[2:len(shape)-1], ",") {
+					parts := strings.SplitN(kv, ":", 2)
+					if len(parts) != 2 {
+						continue
+					}
+					for i := 0; i < stt.NumFields(); i++ {
+						if stt.Field(i).Name() == parts[0] {
+							switch parts[1] {
+							case "nil":
+								fs[i] = e.zeroOf(stt.Field(i).Type())
+							case "nonnil":
+								if fv, ok := fs[i].(VSym); ok && fv.T.Sort == SBytes {
+									st.assume(Not(Eq(fv.T, nullB)))
+								}
+							}
+						}
+					}
+				}
+				st.heap[pv.Cell] = VStruct{fs}
+			}
+		}
+		return v
+	}
 	v := e.symbolicOf(st, t, name, 0)
 	if p, ok := v.(VPtr); ok {
 		e.cellNames[p.Cell] = name
@@ -226,6 +273,7 @@ func (e *Engine) verifyFunction(ct *Contract, prop string, tier string) *fnResul
 	var vcs []vc
 	mustfailSeen := map[string]bool{}
 	e.curFn = ct.Fn
+	e.reachCount = nil
 	e.unmodelled = map[string]int{}
 	for _, variant := range variants {
 		for _, shape := range e.paramShapes(fn, ct) {
@@ -447,18 +495,37 @@ func (e *Engine) verifyFunction(ct *Contract, prop string, tier string) *fnResul
 			}
 		}
 	}
-	// loop-invariant and call-site obligations collected during execution
-	for _, so := range e.sideObls {
-		if prop != "" && !hasProp(so.props, prop) {
-			continue
+	// loop-invariant and call-site obligations collected during execution: one solver session per program point
+	{
+		groups := map[*State][]pathGoal{}
+		var order []*State
+		for _, so := range e.sideObls {
+			if prop != "" && !hasProp(so.props, prop) {
+				continue
+			}
+			o := getObl(so.id, so.kind, so.clause, so.props, so.line)
+			o.Paths++
+			if so.goal.IsTrue() || so.st == nil {
+				o.Trivial++
+				continue
+			}
+			if dbg := os.Getenv("ROSVC_DEBUGOBL"); dbg != "" && strings.Contains(so.id, dbg) {
+				fmt.Fprintf(os.Stderr, "DEBUG %s goal: %s\n", so.id, truncate(so.goal.S, 600))
+			}
+			if _, ok := groups[so.st]; !ok {
+				order = append(order, so.st)
+			}
+			groups[so.st] = append(groups[so.st], pathGoal{obl: o, goal: so.goal})
 		}
-		o := getObl(so.id, so.kind, so.clause, so.props, so.line)
-		o.Paths++
-		if so.goal.IsTrue() {
-			o.Trivial++
-			continue
+		for _, sst := range order {
+			gs := groups[sst]
+			var gts []Term
+			for _, g := range gs {
+				gts = append(gts, g.goal)
+			}
+			e.instantiateAll(sst, nil, gts)
+			vcs = append(vcs, vc{header: e.scriptHeader(sst, nil), goals: gs})
 		}
-		vcs = append(vcs, vc{header: so.header, goals: []pathGoal{{obl: o, goal: so.goal}}})
 	}
 	e.sideObls = nil
 	// discharge: one session per path on z3-new, fall back to the other solvers per goal
@@ -771,7 +838,7 @@ type sideObl struct {
 	id, kind, clause string
 	props            []string
 	line             int
-	header           string
+	st               *State // snapshot shared by the obligations raised at the same point
 	goal             Term
 }
 
